@@ -324,8 +324,6 @@ def h_compress24(H):
 
         def body(it, overwrite=overwrite):
             fs_, conv, ap, napch = mk_conv(it)
-            b = z3.Const("b0", C02.Bytes)
-            it.ctx.assume(z3.ForAll([b], C02.Df(C02.Cf(b)) == b))
             C02.install_mtscomp(it, fs_)
             it.session.contracts[spikeglx.Reader] = _reader_factory(fs_)
             info = {}
@@ -381,8 +379,6 @@ def h_np21(H):
 
         def body(it, overwrite=overwrite):
             fs_, conv, ap, napch = mk_conv(it, version="NP2.1")
-            b = z3.Const("b0", C02.Bytes)
-            it.ctx.assume(z3.ForAll([b], C02.Df(C02.Cf(b)) == b))
             C02.install_mtscomp(it, fs_)
             it.session.contracts[spikeglx.Reader] = _reader_factory(fs_)
             conv.attrs["sr"] = _reader_factory(fs_)(it, [ap], {})
